@@ -18,6 +18,15 @@ class LoopMixin(object):
             raise AnalysisError("for/else not modelled (%s:%d)" % (
                 frame.func.module, node.lineno))
         def go(s, it):
+            self.refuse_opaque_iteration(it)
+            from .terms import strip_wrappers as _sw
+            t0 = _sw(it)
+            if t0[0] == "call" and t0[1] in (".items", ".keys", ".values") and t0[2]:
+                t0 = _sw(t0[2][0])
+            if t0[0] in ("dictlit", "kwdict", "tuple") and isinstance(t0[1], tuple) and \
+                    len(t0[1]) == 0:
+                # a literal empty collection: no iteration
+                return [(s, NORMAL)]
             if it[0] == "dbcur" and (it, "#result") in s.heap:
                 it = s.heap[(it, "#result")]
             if it[0] == "cursor":
@@ -37,6 +46,17 @@ class LoopMixin(object):
                 return self.unroll(node, s, frame, it[1])
             return self.run_loop(node, s, frame, it)
         return self._each(node.iter, state, frame, go)
+
+    def refuse_opaque_iteration(self, it):
+        """a local dict filled under computed keys is opaque; a loop over it (or
+        its items / keys / values) depends on what it holds: not modelled"""
+        from .terms import strip_wrappers
+        t = strip_wrappers(it)
+        if t[0] == "call" and t[1] in (".items", ".keys", ".values") and t[2]:
+            t = strip_wrappers(t[2][0])
+        if t[0] == "opaquedict":
+            raise AnalysisError("local dict %r is filled under computed keys (%s:%d) and "
+                                "iterated: not modelled" % (t[1], t[2], t[3]))
 
     def st_While(self, node, state, frame):
         if node.orelse:
@@ -188,6 +208,8 @@ class LoopMixin(object):
         env = s.envs[frame.fid]
         for nm in assigned:
             v = env.get(nm)
+            if v is not None and v[0] == "opaquedict":
+                continue   # already a stable, opaque value
             if v is not None and not (is_const(v) and
                                       isinstance(v[1], (bool, type(None)))):
                 acc = None
